@@ -359,6 +359,8 @@ func (s *Sim) target(idx int) int {
 // tuple is the generic tuple for RelIdx positions.
 func (s *Sim) relations(tuple []int, tgt map[int]int, order []int, style int) []ecs.Relation {
 	var out []ecs.Relation
+	allType := true
+	var key []uint64
 	for _, t := range order {
 		label, ok := tgt[t]
 		if !ok {
@@ -378,10 +380,46 @@ func (s *Sim) relations(tuple []int, tgt map[int]int, order []int, style int) []
 		switch st {
 		case RSIdx:
 			out = append(out, ecs.RelIdx(pos, h))
+			allType = false
 		case RSType:
 			out = append(out, U[t].Rel(h))
+			key = append(key, uint64(t), uint64(h.ID()), uint64(h.Gen()))
 		default:
 			out = append(out, ecs.RelID(s.ids[t], h))
+			allType = false
+		}
+	}
+	if allType && len(out) > 0 {
+		// A program may prepare its type-based relation arguments (ecs.Rel[T](target)) once and
+		// pass the same slice to every world it runs: the arguments carry no world-specific
+		// data. The cache is process-wide on purpose (twin worlds, repeated executions and
+		// the histories a worker runs one after the other register their types in different orders).
+		k := fmt.Sprint(key)
+		if c, ok := relArgCache[k]; ok {
+			return c
+		}
+		if len(relArgCache) > 8192 {
+			relArgCache = map[string][]ecs.Relation{}
+		}
+		out = out[:len(out):len(out)] // an append by a caller must not write into the shared array
+		relArgCache[k] = out
+	}
+	return out
+}
+
+// relArgCache holds type-based relation argument slices shared by all worlds of the process.
+var relArgCache = map[string][]ecs.Relation{}
+
+// PollutedCfg returns the same configuration with the universe types registered in the
+// reverse order: a world that ran in the same process before, with other component IDs.
+func PollutedCfg(cfg Config) Config {
+	out := cfg
+	out.Perm = make([]int, NumTypes)
+	for i := range out.Perm {
+		if len(cfg.Perm) == NumTypes {
+			out.Perm[i] = cfg.Perm[NumTypes-1-i]
+		} else {
+			out.Perm[i] = NumTypes - 1 - i
 		}
 	}
 	return out
